@@ -24,7 +24,7 @@ META = {
     "rule": "state = explored path; transition = solver-decided branch",
 }
 
-UNIVERSES = {"plain": ["a", "b"], "pins": ["bb.i", "bb.o"], "mixed_o": ["a", "bb.o"], "mixed_i": ["bb.i", "zz.p"]}
+UNIVERSES = {"plain": ["a", "b"], "pins": ["bb.i", "bb.o"], "mixed_o": ["a", "bb.o"], "mixed_i": ["bb.i", "zz.p"], "prefix": ["bb.o", "bbx.i"]}
 # pairwise covering array over the four flags (every pair of flags takes all four value combinations); first row = defaults
 FLAGS_QUICK = [(True, False, True, False), (True, True, False, True), (False, False, False, True), (False, True, True, True), (False, True, False, False)]
 
@@ -55,7 +55,7 @@ def library_output_cases(ctx):
     lint-clean.  Concrete side assertions (the real lint, whose verdicts are what the E2 part of this check establishes)."""
     from cgv import families as F
 
-    fam = F.f_shape() + F.reordered(F.f_shape()) + [c for c in F.f_unit(3) if c[0][0] == "pair"][:12] + F.f_bb() + F.f_rand(ctx.seed, 10 if ctx.quick else 60)
+    fam = F.f_shape() + F.reordered(F.f_shape()) + [c for c in F.f_unit(3) if c[0][0] == "pair"][:12] + F.f_bb() + F.f_bb_dotted() + F.f_rand(ctx.seed, 10 if ctx.quick else 60)
     return [(("libout",) + cid, ("libout", spec)) for cid, spec in fam]
 
 
@@ -71,10 +71,15 @@ def check_library_outputs(ctx, cid, spec):
         return
     det = {"case": cid, "circuit": spec if len(spec["nodes"]) < 25 else None}
     plain = not A.bbs and not A.has_x()
+    dotted_pins = any("." in p_ for v in A.bbs.values() for p_ in v[1] + v[2])
     calls = [("limit_fanin", lambda: tx.limit_fanin(build(spec), 2)), ("limit_fanout", lambda: tx.limit_fanout(build(spec), 2)),
              ("verilog round trip", lambda: cg.io.verilog_to_circuit(cg.io.circuit_to_verilog(build(spec)), spec["name"], blackboxes=[cg.BlackBox(v[0], v[1], v[2]) for v in A.bbs.values()])),
              ("fast verilog parse", lambda: cg.io.verilog_to_circuit(cg.io.circuit_to_verilog(build(spec)), spec["name"], blackboxes=[cg.BlackBox(v[0], v[1], v[2]) for v in A.bbs.values()], fast=True)),
              ("copy", lambda: build(spec).copy())]
+    if dotted_pins:
+        calls = [c_ for c_ in calls if "verilog" not in c_[0]]  # such pin names are not Verilog identifiers
+    if A.bbs:
+        calls.append(("strip_blackboxes", lambda: tx.strip_blackboxes(build(spec))))
     if plain:
         calls += [("ternary", lambda: tx.ternary(build(spec))[0]), ("miter", lambda: tx.miter(build(spec))), ("acyclic_unroll", lambda: tx.acyclic_unroll(build(spec))),
                   ("supergates", lambda: tx.supergates(build(spec))), ("bench round trip", lambda: cg.io.bench_to_circuit(cg.io.circuit_to_bench(build(spec)), spec["name"]))]
